@@ -1,5 +1,6 @@
 import DFV.Lemmas.C02Patch
 import DFV.Lemmas.C02Nearest
+import DFV.Lemmas.C02Line
 /-!
 # C02 — a field holds exactly the value its specification assigns to every cell
 
@@ -219,5 +220,239 @@ theorem updateValues_field_wrong_nvdim_rejected (isZero : V → Bool) (junk : Op
       intro h; exact absurd h h1
     · exact ⟨.key, by simp [hc, hd]⟩
   · exact ⟨.value, by simp [hc]⟩
+
+/-! ## sampling, components, iteration -/
+
+/-- Sampling is `array[point2index(p)]`: the `nvdim` stored values of the cell whose index
+`point2index` returns; a point `point2index` rejects is rejected. -/
+theorem call_eq (f : VF V) (p : List Rat) :
+    (∀ i, f.mesh.point2index p = .ok i →
+      f.call p = .ok (row f.data f.nvdim i) ∧ (row f.data f.nvdim i).length = f.nvdim ∧
+      ∀ c d, c < f.nvdim → (row f.data f.nvdim i).getD c d = f.data.get (i ++ [c])) ∧
+    (∀ e, f.mesh.point2index p = .error e → f.call p = .error e) := by
+  constructor
+  · intro i hi
+    refine ⟨by simp [VF.call, hi], by simp [row], fun c d hc => ?_⟩
+    unfold row; rw [getD_tab _ _ _ _ hc]
+  · intro e he; simp [VF.call, he]
+
+/-- Sampling at any point of the region returns the stored value of a cell that contains the
+point: lower faces inclusive, upper faces exclusive except for the last cell of an axis. -/
+theorem call_cell_contains (f : VF V) (hm : f.mesh.Inv) (p : List Rat) (hp : f.mesh.region.containsExact p) :
+    ∃ i, f.call p = .ok (row f.data f.nvdim i) ∧ inRange f.mesh.n i = true ∧
+      ∀ a, a < f.mesh.ndim →
+        f.mesh.region.lo a + (i.getD a 0 : Rat) * f.mesh.cellAt a ≤ p.getD a 0 ∧
+        (p.getD a 0 < f.mesh.region.lo a + ((i.getD a 0 : Rat) + 1) * f.mesh.cellAt a ∨
+          (i.getD a 0 = f.mesh.nAt a - 1 ∧ p.getD a 0 = f.mesh.region.hi a)) := by
+  obtain ⟨hl, hb⟩ := hp
+  have h2i := point2index_exact f.mesh p hl hb
+  have hc : ∀ a, a < f.mesh.ndim → _ := fun a ha =>
+    indexAx_contains f.mesh a (p.getD a 0) (inv_n_pos _ hm a ha) (inv_lo_lt_hi _ hm a ha) (hb a ha).1 (hb a ha).2
+  refine ⟨_, ((call_eq f p).1 _ h2i).1, ?_, fun a ha => ?_⟩
+  · rw [inRange_iff]
+    refine ⟨by simp [hm.2.1], fun a ha => ?_⟩
+    have ha' : a < f.mesh.ndim := by rw [← hm.2.1]; exact ha
+    rw [getD_tab _ _ _ _ ha']
+    exact (hc a ha').1
+  · rw [getD_tab _ _ _ _ ha]
+    exact (hc a ha).2
+
+/-- Sampling at the centre of cell `i` returns the values stored for cell `i`. -/
+theorem call_centre (f : VF V) (hm : f.mesh.Inv) (i : List Nat) (hi : inRange f.mesh.n i = true) :
+    f.call (f.mesh.centre i) = .ok (row f.data f.nvdim i) :=
+  ((call_eq f _).1 i (point2index_centre f.mesh hm i hi)).1
+
+/-- A point outside the region (beyond its comparison tolerance) cannot be sampled. -/
+theorem call_outside (f : VF V) (p : List Rat) (h : f.mesh.region.containsPt p = false) :
+    f.call p = .error .value := by
+  apply (call_eq f p).2
+  unfold Mesh.point2index
+  split
+  · rfl
+  · simp [h]
+
+/-- Component access returns the matching column: a scalar field on the same mesh whose cell `i`
+holds component `k` of cell `i`, `k` being the position of the label in `vdims`. -/
+theorem comp_eq (isZero : V → Bool) (f : VF V) (label : String) (g : VF V) (h : f.comp isZero label = .ok g) :
+    g.mesh = f.mesh ∧ g.nvdim = 1 ∧ g.data.shape = f.mesh.n ++ [1] ∧
+    ∃ vs k, f.vdims = some vs ∧ k < vs.length ∧ vs.getD k "" = label ∧
+      ∀ i, inRange f.mesh.n i = true → g.data.get (i ++ [0]) = f.data.get (i ++ [k]) := by
+  unfold VF.comp at h
+  split at h
+  · cases h
+  · rename_i vs hvs
+    split at h
+    · cases h
+    · rename_i k hk
+      obtain ⟨hk1, hk2⟩ := indexOf?_spec vs label k hk
+      obtain ⟨a, ha, has, hag⟩ := asArray_array isZero none
+        ⟨f.mesh.n ++ [1], fun j => f.data.get (j.dropLast ++ [k])⟩ f.mesh 1 rfl
+      obtain ⟨b, hb, hbs, hbg⟩ := updateValues_eq isZero none _ f.mesh 1 a ha has
+      unfold VF.mk? at h
+      rw [hb] at h
+      injection h with h; subst h
+      refine ⟨rfl, rfl, hbs, vs, k, hvs, hk1, hk2, fun i hi => ?_⟩
+      have hj : inRange (f.mesh.n ++ [1]) (i ++ [0]) = true := by rw [inRange_snoc, hi]; simp
+      simp only
+      rw [hbg _ hj, hag _ hj]
+      simp
+
+/-- A label that is not among the component labels (or any label on a field without labels)
+is rejected. -/
+theorem comp_unknown_rejected (isZero : V → Bool) (f : VF V) (label : String)
+    (h : ∀ vs, f.vdims = some vs → indexOf? vs label = none) : f.comp isZero label = .error .value := by
+  unfold VF.comp
+  split
+  · rfl
+  · rename_i vs hvs
+    rw [h vs hvs]
+
+/-- Iteration yields the cells in mesh order: the `k`-th item is the stored value of the `k`-th
+index of `Mesh.indices`. -/
+theorem iter_eq (f : VF V) (hm : f.mesh.Inv) :
+    f.iter = (indicesCode f.mesh.n).map fun i => .ok (row f.data f.nvdim i) := by
+  unfold VF.iter Mesh.iter
+  rw [List.map_map]
+  apply List.map_congr_left
+  intro i hi
+  exact call_centre f hm i ((mem_indicesCode _ _).mp hi)
+
+/-! ## lines -/
+
+/-- A line has the requested number of points, `point_j = p1 + j·(p2 − p1)/(n − 1)`. -/
+theorem line_points (f : VF V) (p1 p2 : List Rat) (n : Nat) (o : LineOut V) (h : f.line p1 p2 n = .ok o) :
+    o.points.length = n ∧ o.values.length = n ∧ o.r2.length = n ∧
+    ∀ j a, j < n → a < f.mesh.ndim →
+      (o.points.getD j []).getD a 0 = p1.getD a 0 + (j : Rat) * ((p2.getD a 0 - p1.getD a 0) / ((n : Rat) - 1)) := by
+  obtain ⟨_, hml, hv, hr⟩ := line_ok f p1 p2 n o h
+  obtain ⟨_, _, _, hpts⟩ := meshLine_ok _ _ _ _ _ hml
+  have hl : o.points.length = n := by rw [hpts]; simp
+  refine ⟨hl, ?_, by rw [hr]; simp [hl], fun j a hj ha => ?_⟩
+  · have := congrArg List.length hv
+    simpa [hl] using this.symm
+  · rw [hpts, getD_tab _ _ _ _ hj, getD_tab _ _ _ _ ha]
+
+/-- The line runs from `p1` to `p2` inclusive. -/
+theorem line_ends (f : VF V) (p1 p2 : List Rat) (n : Nat) (o : LineOut V) (h : f.line p1 p2 n = .ok o) :
+    o.points.getD 0 [] = p1 ∧ o.points.getD (n - 1) [] = p2 := by
+  obtain ⟨_, hml, _, _⟩ := line_ok f p1 p2 n o h
+  obtain ⟨hc1, hc2, hn, hpts⟩ := meshLine_ok _ _ _ _ _ hml
+  have hl1 := containsPt_length _ _ hc1
+  have hl2 := containsPt_length _ _ hc2
+  have hne : (n : Rat) - 1 ≠ 0 := by
+    have : (2 : Rat) ≤ (n : Rat) := by exact_mod_cast hn
+    linarith
+  constructor
+  · rw [hpts, getD_tab _ _ _ _ (by omega)]
+    symm
+    apply eq_tab_of_getD p1 _ _ 0 hl1
+    intro a _; push_cast; ring
+  · rw [hpts, getD_tab _ _ _ _ (by omega)]
+    symm
+    apply eq_tab_of_getD p2 _ _ 0 hl2
+    intro a _
+    have : ((n - 1 : Nat) : Rat) = (n : Rat) - 1 := by rw [Nat.cast_sub (by omega)]; simp
+    rw [this]; field_simp; ring
+
+/-- The points are equidistant: consecutive points differ by the same vector `(p2 − p1)/(n − 1)`. -/
+theorem line_equidistant (f : VF V) (p1 p2 : List Rat) (n : Nat) (o : LineOut V) (h : f.line p1 p2 n = .ok o)
+    (j a : Nat) (hj : j + 1 < n) (ha : a < f.mesh.ndim) :
+    (o.points.getD (j + 1) []).getD a 0 - (o.points.getD j []).getD a 0
+      = (p2.getD a 0 - p1.getD a 0) / ((n : Rat) - 1) := by
+  obtain ⟨_, _, _, hp⟩ := line_points f p1 p2 n o h
+  rw [hp (j + 1) a hj ha, hp j a (by omega) ha]
+  push_cast; ring
+
+/-- The distance column: `r_j² = j²·|p2 − p1|²/(n − 1)²`, i.e. `r_j = j·|p2 − p1|/(n − 1)`
+(stated on squares; the data frame holds the square roots). -/
+theorem line_r2 (f : VF V) (p1 p2 : List Rat) (n : Nat) (o : LineOut V) (h : f.line p1 p2 n = .ok o)
+    (j : Nat) (hj : j < n) :
+    o.r2.getD j 0 = ((j : Rat) * (j : Rat)) / (((n : Rat) - 1) * ((n : Rat) - 1)) * sqDist p2 p1 := by
+  obtain ⟨_, hml, _, hr⟩ := line_ok f p1 p2 n o h
+  obtain ⟨_, hc2, hn, hpts⟩ := meshLine_ok _ _ _ _ _ hml
+  have hl : o.points.length = n := by rw [hpts]; simp
+  rw [hr]
+  have : (o.points.map fun p => sqDist p (o.points.getD 0 [])).getD j 0
+      = sqDist (o.points.getD j []) (o.points.getD 0 []) := by
+    simp [List.getD_eq_getElem?_getD, hl, hj]
+  rw [this, hpts, getD_tab _ _ _ _ hj, getD_tab _ _ _ _ (by omega)]
+  exact sqDist_line f.mesh.ndim n j p1 p2 (containsPt_length _ _ hc2) hn
+
+/-- The values along the line are the field sampled at the line's points. -/
+theorem line_values (f : VF V) (p1 p2 : List Rat) (n : Nat) (o : LineOut V) (h : f.line p1 p2 n = .ok o)
+    (j : Nat) (hj : j < n) : f.call (o.points.getD j []) = .ok (o.values.getD j []) := by
+  obtain ⟨hl, hvl, _, _⟩ := line_points f p1 p2 n o h
+  obtain ⟨_, _, hv, _⟩ := line_ok f p1 p2 n o h
+  have := congrArg (fun l => l[j]?) hv
+  simp only [List.getElem?_map] at this
+  rw [List.getElem?_eq_getElem (by omega), List.getElem?_eq_getElem (by omega)] at this
+  simp only [Option.map_some, Option.some.injEq] at this
+  simp only [List.getD_eq_getElem?_getD, List.getElem?_eq_getElem (show j < o.points.length by omega),
+    List.getElem?_eq_getElem (show j < o.values.length by omega), Option.getD_some]
+  exact this
+
+/-- A line with an end point outside the region is rejected. -/
+theorem line_outside_rejected (f : VF V) (p1 p2 : List Rat) (n : Nat)
+    (h : f.mesh.region.containsPt p1 = false ∨ f.mesh.region.containsPt p2 = false) :
+    f.line p1 p2 n = .error .value := by
+  unfold VF.line meshLine
+  rcases h with h | h <;> simp [h]
+
+/-- † Finding D23: on a 1-d mesh `Field.line` never succeeds (the code's `Mesh.line` yields bare
+numbers and `Line.__init__` then fails), although the property promises a line for every mesh. -/
+theorem line_1d_rejected (f : VF V) (p1 p2 : List Rat) (n : Nat) (h : f.mesh.ndim = 1) :
+    ∃ e, f.line p1 p2 n = .error e := by
+  unfold VF.line
+  split
+  · exact ⟨_, rfl⟩
+  · split
+    · exact ⟨_, rfl⟩
+    · exact ⟨.index, by simp [h]⟩
+
+/-! ## rejected assignments -/
+
+/-- A rejected assignment — through the `array` setter or `update_field_values` — leaves the
+field exactly as it was; an accepted one changes only the array. -/
+theorem reject_leaves_unchanged (isZero : V → Bool) (junk : Option V) (f : VF V) :
+    (∀ l e, f.setArray isZero l = .error e → f.after (f.setArray isZero l) = f) ∧
+    (∀ s e, f.update isZero junk s = .error e → f.after (f.update isZero junk s) = f) ∧
+    (∀ l g, f.setArray isZero l = .ok g → f.after (f.setArray isZero l) = g ∧
+      g.mesh = f.mesh ∧ g.nvdim = f.nvdim ∧ g.vdims = f.vdims) ∧
+    (∀ s g, f.update isZero junk s = .ok g → f.after (f.update isZero junk s) = g ∧
+      g.mesh = f.mesh ∧ g.nvdim = f.nvdim ∧ g.vdims = f.vdims) := by
+  refine ⟨fun l e h => by rw [h]; rfl, fun s e h => by rw [h]; rfl, fun l g h => ?_, fun s g h => ?_⟩
+  · refine ⟨by rw [h]; rfl, ?_⟩
+    unfold VF.setArray at h
+    split at h
+    · cases h
+    · injection h with h; subst h; exact ⟨rfl, rfl, rfl⟩
+  · refine ⟨by rw [h]; rfl, ?_⟩
+    unfold VF.update at h
+    split at h
+    · cases h
+    · injection h with h; subst h; exact ⟨rfl, rfl, rfl⟩
+
+/-- Every kind of malformed value is rejected by `update_field_values`, so (previous theorem) the
+field keeps its state: wrong type, non-zero scalar for several components, wrong last axis. -/
+theorem update_malformed_rejected (isZero : V → Bool) (junk : Option V) (f : VF V) :
+    (∃ e, f.update isZero junk (.leaf .bad) = .error e) ∧
+    (∀ v, 1 < f.nvdim → isZero v = false → ∃ e, f.update isZero junk (.leaf (.scalar v)) = .error e) ∧
+    (∀ a : NDA V, ¬ (f.nvdim = 1 ∧ a.shape = f.mesh.n) → a.shape.getLast? ≠ some f.nvdim →
+      ∃ e, f.update isZero junk (.leaf (.arr a)) = .error e) := by
+  refine ⟨⟨.type, by simp [VF.update, updateValues, asArray, asLeaf]⟩, fun v h1 h2 => ⟨.value, ?_⟩,
+    fun a h1 h2 => ⟨.value, ?_⟩⟩
+  · simp [VF.update, updateValues, asArray_scalar_rejected isZero junk v f.mesh f.nvdim h1 h2]
+  · simp [VF.update, updateValues, asArray_wrong_count_rejected isZero junk a f.mesh f.nvdim h1 h2]
+
+/-- † Finding D24: the `array` setter converts only once, and the source-field overload does not
+check the component count, so `field.array = other_field` with another `nvdim` is ACCEPTED and
+leaves an array whose last axis is not `nvdim` (`update_field_values` rejects it, see
+`updateValues_field_wrong_nvdim_rejected`). -/
+theorem setArray_field_wrong_nvdim_accepted (isZero : V → Bool) (f : VF V) (src : VF V)
+    (hc : src.mesh.region.containsReg f.mesh.region = true) (hd : f.mesh.region.dims = src.mesh.region.dims)
+    (h2 : src.nvdim ≠ 1) :
+    ∃ g, f.setArray isZero (.field src) = .ok g ∧ g.data.shape = f.mesh.n ++ [src.nvdim] := by
+  have hbr : ¬ (src.nvdim = 1 ∧ f.nvdim ≠ 1) := fun h => h2 h.1
+  refine ⟨_, by simp only [VF.setArray, asLeaf, hc, hd, hbr]; simp; rfl, rfl⟩
 
 end DFV.C02
